@@ -45,7 +45,7 @@ RULE = ("cases = (operation family, data shape/dtype/seed, data chunking, mask f
         "distinct = distinct (family, op, shapes, dtype, chunks, mask flavour, parameters).")
 ASSUMPTIONS = ["numpy.ma (NumPy 2.x) defines the expected data, mask, dtype and fill value",
                "sync scheduler (threads for a tenth)"]
-BUDGET = {"quick": 45, "thorough": 540}
+BUDGET = {"quick": 90, "thorough": 600}
 FLOORS = {"quick": {"evaluations": 1, "distinct_nontrivial": 1}, "thorough": {"evaluations": 1, "distinct_nontrivial": 1}}
 EXHAUSTIVE_SPACE = ("all 4x2=8 chunkings of a (2,3) array x all 64 masks under sum(axis=None|0|1), filled() and "
                     "masked + plain")
@@ -55,7 +55,17 @@ CLAIM = ("Every generated masked-array expression was computed by the real dask.
 LEVEL_NOTE = ("numpy.ma is the reference; data under the mask is not compared; fill_value compared only for construction "
               "and set_fill_value; only the da.ma functions that exist in dask/array/ma.py")
 TECHNIQUE = "runtime monitoring: numpy.ma differential oracle over generated masks/chunkings and a complete small mask space"
-PENDING = {}
+PENDING = {
+    "elem:*:ref=masked-constant:ValueError@array/core.py:_enforce_dtype":
+        "elementwise op on a fully masked 0-d non-float64 array raises (numpy.ma returns the float64 `masked` singleton, "
+        "_enforce_dtype refuses the cast)",
+    "average:average:weights=none:sum_of_weights-values":
+        "da.ma.average(returned=True) without weights returns the number of ALL elements, numpy.ma the number of unmasked ones",
+    "average:average:weights=given&empty-cell:sum_of_weights-mask":
+        "da.ma.average(weights=, returned=True): sum of weights of a fully masked cell is 0.0, numpy.ma returns it masked",
+    "reduce:std-var:ddof>=count&scalar-output:mask":
+        "var/std over all axes with ddof >= number of unmasked elements gives nan, numpy.ma gives masked",
+}
 
 DT = ["bool", "int8", "int32", "int64", "uint8", "float32", "float64"]
 MASKKINDS = ["nomask", "random", "random", "chunk", "chunk", "chunk", "all", "none", "scalarT", "scalarF"]
@@ -81,7 +91,7 @@ def cases(tier, seed):
             for what in ("sum:None", "sum:0", "sum:1", "filled", "add"):
                 yield {"space": "exhaustive", "kind": "ex", "what": what, "shape": list(shape), "dtype": "int64",
                        "chunks": [list(c) for c in ch], "bits": bits, "seed": 3}
-    n = 3600 if tier == "quick" else 60000
+    n = 3000 if tier == "quick" else 50000
     kinds = ["construct"] * 3 + ["mfunc"] * 4 + ["elem"] * 5 + ["reduce"] * 6 + ["filled"] * 2 + \
             ["getmaskarray", "getdata", "setfill", "average", "average", "nonzero", "where3"]
     for i in range(n):
@@ -497,7 +507,7 @@ def _run(case, ctx):
         dd = "ddof>=count" if (ddof and (cnt - ddof <= 0).any()) else ""
         if empty:
             ctx.count("reduce_with_fully_masked_cell")
-        flags = _flags(empty, dd)
+        flags = _flags(empty, dd, "scalar-output" if (dd and cnt.ndim == 0) else "")
         if op == "count":
             _check(ctx, case, "reduce", "count", flags, lambda: np.ma.count(mx, **kw),
                    lambda: da.ma.count(dmx, split_every=se, **kw))
